@@ -7,3 +7,7 @@ from contracts.C01_joint_uniqueness import PandasJointUniqueness, PolarsJointUni
 from contracts.C11_polars_check_output import PolarsPostprocessLazyframeOutput  # null handling of row-wise check outputs (ignore_na)
 
 CONTRACTS = [PolarsCollectSchemaComponents, PolarsRunSchemaComponentChecks, PolarsAddMissingColumns, PolarsSetDefault, PolarsPostprocessLazyframeOutput, PandasJointUniqueness, PolarsJointUniqueness]
+
+from contracts.C03_polars_container_validate import PolarsContainerValidate  # noqa: E402  (which columns are validated: those of the PARSED frame, as on pandas)
+
+CONTRACTS += [PolarsContainerValidate]
